@@ -35,6 +35,8 @@ def _axes_variants(rng, ndim):
     r = rng.random()
     if r < 0.2:
         return None, "none"
+    if r < 0.24:
+        return [], "empty"        # transform over no axis at all: the identity (resize aside)
     k = int(rng.integers(1, ndim + 1))
     ax = sorted(rng.choice(ndim, size=k, replace=False).tolist())
     style = pick(rng, ["pos", "neg", "mixed", "unsorted"])
@@ -57,6 +59,12 @@ def plan(tier, seed):
         ndim = int(pick(rng, [1, 1, 2, 2, 3, 4]))
         lim = maxn if ndim < 4 else min(maxn, 5)
         shape = [int(rng.integers(1, lim + 1)) for _ in range(ndim)]
+        if i % 8 == 7 and ndim <= 3:
+            # size-dependent regime: primes, powers of two and their neighbours past 16 / 32
+            big = [[16, 17, 31, 32, 33, 37, 61, 64], [13, 16, 17, 19, 24], [7, 8, 9, 11]][ndim - 1]
+            shape = [int(pick(rng, big)) if rng.random() < 0.5 else
+                     int(rng.integers([14, 10, 6][ndim - 1], [48, 26, 12][ndim - 1]))
+                     for _ in range(ndim)]
         axes, akind = _axes_variants(rng, ndim)
         center = bool(rng.random() < 0.6)
         norm = pick(rng, ["ortho", "ortho", None])
@@ -68,6 +76,7 @@ def plan(tier, seed):
         P.add("fft_matrix", inverse=bool(rng.random() < 0.5), shape=shape, axes=axes,
               akind=akind, center=center, norm=norm, oshape=oshape, okind=okind,
               dtype=pick(rng, DTYPES), view=bool(rng.random() < 0.2),
+              mag=pick(rng, [1, 1, 1, 1, 1e-10, 1e8]),
               linop=bool(oshape is None and norm == "ortho" and rng.random() < 0.35))
     # directed: delta at every index of an odd axis, strict subset of axes
     nd = 0
@@ -166,6 +175,9 @@ def run_case(case):
         sig = "|".join(map(str, [case["gen"], "i" if inverse else "f", len(shape),
                                  _parity(shape), case["akind"], center, norm,
                                  case["okind"], dtype.name]))
+    if case.get("mag", 1) != 1:
+        x = x * x.dtype.type(case["mag"])       # 1e-8 / 1e+8: the transform is homogeneous
+        sig += "|mag"
     x0 = x.copy()
     tol = 1e-10 if dtype == np.complex128 else 2e-4
     kw = {}
